@@ -84,6 +84,11 @@ pub trait Api1 {
 	async fn suby(&self, a: u64, b: Option<String>) -> SubscriptionResult;
 	#[subscription(name = "subsync" => "subsyncNotif", unsubscribe = "unsubsync", item = Vec<Value>, with_extensions)]
 	fn subsync(&self, a: u64) -> SubscriptionResult;
+	// every parameter optional: the call may carry no params at all
+	#[method(name = "all_opt")]
+	async fn all_opt(&self, a: Option<u64>, b: Option<String>) -> RpcResult<Vec<Value>>;
+	#[method(name = "all_opt_named", param_kind = map)]
+	fn all_opt_named(&self, a: Option<u64>, b: Option<String>) -> RpcResult<Vec<Value>>;
 	// a method that answers with an error object built from its arguments: the client must receive exactly it
 	#[method(name = "fail_with")]
 	async fn fail_with(&self, code: i32, msg: String, data: Option<P>) -> RpcResult<Vec<Value>>;
@@ -211,6 +216,16 @@ impl Api1Server for Impl {
 			}
 		});
 		Ok(())
+	}
+	async fn all_opt(&self, a: Option<u64>, b: Option<String>) -> RpcResult<Vec<Value>> {
+		let args = vec![jo(&a), jo(&b)];
+		self.0.lock().unwrap().push(("all_opt".into(), args.clone()));
+		Ok(ret(&args))
+	}
+	fn all_opt_named(&self, a: Option<u64>, b: Option<String>) -> RpcResult<Vec<Value>> {
+		let args = vec![jo(&a), jo(&b)];
+		self.0.lock().unwrap().push(("all_opt_named".into(), args.clone()));
+		Ok(ret(&args))
 	}
 	async fn fail_with(&self, code: i32, msg: String, data: Option<P>) -> RpcResult<Vec<Value>> {
 		let args = vec![js(&code), js(&msg), jo(&data)];
@@ -344,6 +359,8 @@ fn methods() -> Vec<MD> {
 		MD { key: "subx", rpc_name: "ns.subx", aliases: &[], map: false, params: vec![pd("a", false, 1)] },
 		MD { key: "suby", rpc_name: "ns.suby", aliases: &[], map: true, params: vec![pd("a", false, 1), pd("b", true, 2)] },
 		MD { key: "subsync", rpc_name: "ns.subsync", aliases: &[], map: false, params: vec![pd("a", false, 1)] },
+		MD { key: "all_opt", rpc_name: "ns.all_opt", aliases: &[], map: false, params: vec![pd("a", true, 1), pd("b", true, 2)] },
+		MD { key: "all_opt_named", rpc_name: "ns.all_opt_named", aliases: &[], map: true, params: vec![pd("a", true, 1), pd("b", true, 2)] },
 		MD { key: "fail_with", rpc_name: "ns.fail_with", aliases: &[], map: false, params: vec![pd("code", false, 7), pd("msg", false, 2), pd("data", true, 6)] },
 		MD { key: "opt_paths", rpc_name: "ns.opt_paths", aliases: &[], map: false, params: vec![pd("a", false, 1), pd("b", true, 1), pd("c", true, 2), pd("d", true, 3)] },
 		MD { key: "opt_paths_named", rpc_name: "ns.opt_paths_named", aliases: &[], map: true, params: vec![pd("a", false, 1), pd("b", true, 1), pd("c", true, 2)] },
@@ -552,6 +569,8 @@ async fn run(lines: Vec<String>, out: &mut Out) {
 						Ok(mut s) => s.next().await.map(|r| r.map_err(|e| e.to_string())).unwrap_or(Err("stream ended".into())),
 						Err(e) => Err(e.to_string()),
 					},
+					"all_opt" => Api1Client::all_opt(&client, o!(0, u64), o!(1, String)).await.map_err(|e| e.to_string()),
+					"all_opt_named" => Api1Client::all_opt_named(&client, o!(0, u64), o!(1, String)).await.map_err(|e| e.to_string()),
 					"fail_with" => match Api1Client::fail_with(&client, a!(0, i32), a!(1, String), o!(2, P)).await {
 						Ok(_) => Err("fail_with returned Ok".to_string()),
 						Err(jsonrpsee::core::client::Error::Call(e)) => Err(format!("CALL:{}:{}:{}", e.code(), hexs(e.message()), e.data().map(|d| hexs(d.get())).unwrap_or("none".into()))),
